@@ -36,7 +36,7 @@ impl Command {
     pub fn spawn(&mut self) -> io::Result<Child> {
         let script = self.args.last().map(|s| s.to_string_lossy().to_string()).unwrap_or_default();
         let dir = self.dir.as_ref().map(|d| d.display().to_string()).unwrap_or_default();
-        if rt().fail_spawn.iter().any(|f| script.contains(f.as_str())) {
+        if zx_rt::spawn_should_fail(&script) {
             zx_rt::log(&format!("proc_spawn_failed task={} script={:?}", rt().cur_task, script));
             return Err(io::Error::from(io::ErrorKind::NotFound));
         }
